@@ -2,10 +2,41 @@
 fronts are specialised generators built on the same core; bounded are labelled stand-ins."""
 
 PLAN = {
+    'C01': {
+        'fronts': ['pyvc.fronts.tables:run', 'pyvc.fronts.effects:run_c01'],
+        'bounded': [],
+        'assumptions': ['A-cparser: the Cython CParser base of the C loaders is trusted to call only get_single_data-style entry points (text scan of the .pyx for name clashes only)'],
+        'explanation': 'closed constructor tables (module-init run under the proved COW contract), dispatch, effect contracts of every reachable constructor',
+    },
+    'C04': {
+        'fronts': ['pyvc.fronts.tables:run', 'pyvc.fronts.effects:run_c04'],
+        'bounded': [],
+        'assumptions': ['A-getattr: getattr on an already-imported module returns an existing attribute (module-level __getattr__ hooks are out of scope)'],
+        'explanation': 'full-loader tables contain only value constructors and python/name; __import__ is unreachable with unsafe=False',
+    },
+    'C10': {
+        'fronts': ['pyvc.fronts.tables:run', 'pyvc.fronts.effects:run_c10'],
+        'bounded': ['c10_histories.py'],
+        'assumptions': ['linear(name): each class inherits a given registry through a single chain (no registry diamonds in user lattices)',
+                        'add_implicit_resolver / add_path_resolver are covered by the bounded stand-in and the module-init run only (their loop contracts are not discharged yet)'],
+        'explanation': 'copy-on-write contract of the add_* class methods over an arbitrary class lattice; module-init tables; API helper targets',
+    },
+    'C11': {
+        'fronts': ['pyvc.fronts.effects:run_c11'],
+        'bounded': [],
+        'assumptions': ['id()-dependent behaviour is not modelled'],
+        'explanation': 'frame: no library-global state is written; per-document reset postconditions',
+    },
     'C15': {
         'fronts': [],
         'bounded': [],
         'assumptions': ['indent/width are None or int (not bool), line_break is None or str -- the types dump() documents'],
         'explanation': 'contracts on the emitter functions that implement the formatting options',
+    },
+    'C19': {
+        'fronts': ['pyvc.fronts.effects:run_c19', 'pyvc.fronts.effects:run_c11'],
+        'bounded': [],
+        'assumptions': ['A-lt: sorted() may run a user __lt__; a TypeError from it is swallowed by design (represent_mapping)'],
+        'explanation': 'exception transparency: no handler can catch a stream or callback exception; output is append-only; frame of C11 for "usable afterwards"',
     },
 }
